@@ -176,6 +176,14 @@ func VerifyFunction(ld *Loaded, cs *ContractSet, fn *ssa.Function, ct *Contract)
 			}
 		}
 	}
+	if ct.Recovers {
+		fr.blockPC = tTrue
+		ok := tFalse
+		if recoversFirst(fn) {
+			ok = tTrue
+		}
+		ex.oblige(fr, "recovers", "a deferred recover() is installed before any other call", tTrue, ok, fn.Pos())
+	}
 	fr.entry = st.clone()
 	fr.blockPC = tTrue
 	ex.topFrame = fr
@@ -389,4 +397,40 @@ func VerifyLemma(ld *Loaded, cs *ContractSet, lm *Lemma) (res *FuncResult) {
 	res.Unsupported = sortedKeys(ex.unsupported)
 	res.Assumed = sortedKeys(ex.assumedUsed)
 	return res
+}
+
+// recoversFirst: the entry block defers a function literal that calls
+// recover(), and no call precedes that defer.
+func recoversFirst(fn *ssa.Function) bool {
+	if len(fn.Blocks) == 0 {
+		return false
+	}
+	for _, in := range fn.Blocks[0].Instrs {
+		switch x := in.(type) {
+		case *ssa.Defer:
+			var lit *ssa.Function
+			switch v := x.Call.Value.(type) {
+			case *ssa.Function:
+				lit = v
+			case *ssa.MakeClosure:
+				lit, _ = v.Fn.(*ssa.Function)
+			}
+			if lit == nil {
+				return false
+			}
+			for _, b := range lit.Blocks {
+				for _, i2 := range b.Instrs {
+					if c, ok := i2.(*ssa.Call); ok {
+						if bi, ok := c.Call.Value.(*ssa.Builtin); ok && bi.Name() == "recover" {
+							return true
+						}
+					}
+				}
+			}
+			return false
+		case *ssa.Call, *ssa.Go:
+			return false
+		}
+	}
+	return false
 }
